@@ -1674,6 +1674,7 @@ func (app *App) repairSlaveOfflineMode(host string, state *nodestate.NodeState, 
 		return
 	}
 	// online => offline, if lag has increased
+	countedAsPending := false
 	if !state.IsOffline && !masterState.IsReadOnly && *state.SlaveState.ReplicationLag > app.config.OfflineModeEnableLag.Seconds() {
 		if app.offlineModeFilter.CanSetOffline(host, clusterState, pendingOfflineByAZ) {
 			err := node.SetOffline()
@@ -1686,6 +1687,7 @@ func (app *App) repairSlaveOfflineMode(host string, state *nodestate.NodeState, 
 				// Track all replicas which were set offline on current step
 				az := getAvailabilityZone(host, app.config.OfflineModeAZSeparator)
 				pendingOfflineByAZ[az]++
+				countedAsPending = true
 
 				err = app.optController.Enable(node)
 				if err != nil {
@@ -1720,6 +1722,10 @@ func (app *App) repairSlaveOfflineMode(host string, state *nodestate.NodeState, 
 			app.logger.Error().Err(err).Msgf("repair: failed to set slave %s offline", host)
 		} else {
 			app.logger.Info().Msgf("repair: slave %s set offline, because replication permanently broken", host)
+			// it is offline now as well: count it for the per-zone limit of the replicas handled later in this pass
+			if !countedAsPending {
+				pendingOfflineByAZ[getAvailabilityZone(host, app.config.OfflineModeAZSeparator)]++
+			}
 		}
 	}
 }
